@@ -20,7 +20,15 @@ const SepSerial = -2
 
 func IsIface(t int) bool { return t >= TIface && t < TSlice }
 
-func IsSliceT(t int) bool { return t >= TSlice }
+func IsSliceT(t int) bool { return t >= TSlice && t < TPlain }
+
+// TPlain+i is the plain struct type V<i> under its own key, whatever
+// Config.ValMask says. Nothing ever provides it: it only occurs as an optional
+// parameter, namely as the anonymous (embedded) struct field that a declared
+// parameter object may carry in front of its dig.In embed (Param.AnonVal).
+const TPlain = 400
+
+func IsPlainT(t int) bool { return t >= TPlain }
 
 // curValMask: bit i set = universe position i is realised as the struct value
 // type V<i> instead of the pointer type *K<i> in the world that is currently
@@ -41,6 +49,9 @@ func isAlt(t int) bool {
 func altIndex(t int) int { return (t + 1) % NumK }
 
 func TypeName(t int) string {
+	if IsPlainT(t) {
+		return fmt.Sprintf("sim.V%d", t-TPlain)
+	}
 	if IsSliceT(t) {
 		return "[]" + TypeName(t-TSlice)
 	}
@@ -99,6 +110,11 @@ type Param struct {
 	// dig.In carries ignore-unexported:"true". A legal encoding of the same
 	// parameters.
 	Hidden int `json:"hidden,omitempty"`
+	// AnonVal > 0 (declared catalogue functions only): the object starts with
+	// an anonymous optional field of the plain struct type V<AnonVal-1>,
+	// declared before the dig.In embed; it is a leaf parameter (key TPlain+i)
+	// that comes first in the object.
+	AnonVal int `json:"anon_val,omitempty"`
 	// Embed: this object is an anonymous (embedded) field of the enclosing
 	// parameter object instead of a named one.
 	Embed bool `json:"embed,omitempty"`
@@ -244,7 +260,11 @@ func (f *Func) LeafParams() []LeafParam {
 			case PObj:
 				id := nobj
 				nobj++
-				walk(p.Fields, id, append(append([]int(nil), path...), id))
+				np := append(append([]int(nil), path...), id)
+				if p.AnonVal > 0 {
+					out = append(out, LeafParam{Key: Key{T: TPlain + p.AnonVal - 1}, Opt: true, Obj: id, ObjPath: np})
+				}
+				walk(p.Fields, id, np)
 			}
 		}
 	}
@@ -559,6 +579,25 @@ func (h *History) Describe() []string {
 	}
 	for _, f := range h.Faults {
 		out = append(out, fmt.Sprintf("fault f%d execs[%d,%d) %s", f.Fn, f.From, f.To, f.Kind))
+	}
+	return out
+}
+
+// deAnon rewrites parameter objects that carry an anonymous plain-struct field
+// (AnonVal) into the equivalent object with an ordinary first field of the same
+// key: what a reflect-made stub of the same spec can express.
+func deAnon(ps []Param) []Param {
+	out := make([]Param, len(ps))
+	for i, p := range ps {
+		if p.Kind == PObj {
+			p.Fields = deAnon(p.Fields)
+			if p.AnonVal > 0 {
+				p.Fields = append([]Param{{Kind: PSingle, T: TPlain + p.AnonVal - 1, Opt: true}}, p.Fields...)
+				p.AnonVal = 0
+				p.Hidden = 0
+			}
+		}
+		out[i] = p
 	}
 	return out
 }
